@@ -8,11 +8,12 @@ import C19
 
 EXPLANATION = ('C20: In_Units (all overloads): In_Units(q*u, u) = q for u != 0, container overloads equal the scalar overload element by element, the rounding variant is Round(q/u, digits), ragged tables against per-column units exit; '
                'unit constants: Natural_Units.cpp lowered with clang at -O0, -O1 and -O2; the module initialiser is executed from zero-initialised storage with every access to a global recorded: no dynamically initialised constant is read before it has been written (initialisation-order taint), '
-               'and after initialisation every derived unit equals its defining product of the stored base constants within 4 ulp (closed query: no free input).')
+               'and after initialisation every derived unit equals its defining product of the stored base constants within 4 ulp (closed query: no free input); '
+               'text import on an abstract file (std::ifstream / getline / operator>> / ignore are environment stubs on a file of h header lines and R x C numbers): Count_Lines counts every line whatever its length, Import_Table returns shape R x C with entry = number x unit of its column, Import_List all numbers x unit.')
 BOUNDS = {'quick': {'sizes': 3, 'opt_levels': ['-O0', '-O1', '-O2']}, 'thorough': {'sizes': 4, 'opt_levels': ['-O0', '-O1', '-O2', '-O3', '-Os']}}
-NOT_DECIDED = ['the text round trip Export_* / Import_* (libstdc++ iostream formatting and parsing, file system): not encodable with the tools in this image', 'g++ builds (no IR): only clang configurations are examined',
+NOT_DECIDED = ['the TEXT of the round trip Export_* / Import_* (libstdc++ number formatting and parsing, the writers, the file system): not encodable with the tools in this image - the library-side import logic is decided on an abstract file (see explanation)', 'g++ builds (no IR): only clang configurations are examined',
                '(q*u)/u = q bit-precisely: in exact arithmetic only']
-ASSUMPTIONS = ['doubles exact reals for In_Units', 'unit constants: the encoded semantics are those of the clang-14 IR at the listed optimisation levels']
+ASSUMPTIONS = ['doubles exact reals for In_Units', 'import jobs: the stream is a stub - getline returns the lines in order and fails after the last, operator>>(double) skips white space, fails on header text and at the end, ignore(n, newline) skips one line; numbers are symbolic reals (their text form is not modelled)', 'unit constants: the encoded semantics are those of the clang-14 IR at the listed optimisation levels']
 
 UNITS = ['GeV', 'gram', 'kg', 'cm', 'meter', 'km', 'sec', 'ms', 'minute', 'hr', 'day', 'year', 'Joule', 'erg', 'cal', 'Hz', 'Newton', 'dyne', 'Watt', 'Pa', 'bar', 'barye', 'Coulomb', 'Volt', 'Ampere', 'Farad', 'Tesla', 'Gauss', 'Weber', 'Ohm', 'Siemens',
          'eV', 'MeV', 'mm', 'fm', 'inch', 'foot', 'mile', 'barn', 'tonne', 'Elementary_Charge', 'mPlanck', 'mPlanck_reduced', 'G_Newton', 'G_Fermi', 'Higgs_VeV', 'deg', 'arcmin', 'arcsec', 'week']
@@ -86,6 +87,91 @@ def job_in_units(rows, cols):
         res.append(ob('in-units/ragged-table-rejected/%s' % sh, 'discharged' if ok else 'candidate', key='C20/in-units/ragged-rejected', model=None if ok else dict(mv, op=7, ragged=1), detail=str([str(p.end) for p in ps][:2])))
     return res
 
+# ---- text import: the library's own logic on an abstract file -----------------------------------------------------------------------------------------
+IFS = '_ZNSt14basic_ifstreamIcSt11char_traitsIcEE'; FB = '_ZNSt13basic_filebufIcSt11char_traitsIcEE'
+def file_model(header_len, R, C, T, data_len=None):
+    """environment model of std::ifstream on a file with len(header_len) header lines (given lengths; text, not numbers), then R lines of C numbers T[i][j] each, every line ended by a newline.
+       Stream state: the word at ios_base+32 of the stream object (vbase offset 0 through the interpreter's stream vtable); read cursor and ignored-line count live in the object's own storage."""
+    H = len(header_len); nlines = H + R
+    def init(it, st, a):
+        if '__streams' not in it.gaddr: it._alloc_global(st, '@_ZSt4cerr') if '@_ZSt4cerr' not in it.gaddr else None; it._init_global(st, '@_ZSt4cerr')
+        vt, ct = it.gaddr['__streams']; st.memset(a, 0, 520); st.store(a, 8, vt + 24); st.store(a + 240, 8, ct)
+        vtt = '@_ZTTSt14basic_ifstreamIcSt11char_traitsIcEE'              # construction vtable table used by the inlined destructor: every slot -> the model vtable (vbase offset 0)
+        if vtt in it.mod.globals:
+            if vtt not in it.gaddr: it._alloc_global(st, vtt)
+            for k in range(0, 256, 8):
+                if st.find(it.gaddr[vtt] + k, 8) is not None: st.store(it.gaddr[vtt] + k, 8, vt + 24)
+    def state(st, a, setbits=None):
+        if setbits is not None: st.store(a + 32, 4, setbits)
+        return st.load(a + 32, 4)
+    def ctor(it, args, st, depth): init(it, st, args[0]); st.events.append(('file', 'open')); return [(st, None)]
+    def fb_open(it, args, st, depth): st.events.append(('file', 'open')); return [(st, args[0])]
+    def ignore(it, args, st, depth):
+        a = args[0]; st.store(a + 100, 4, st.load(a + 100, 4) + 1); return [(st, a)]
+    def extract(it, args, st, depth):
+        a = args[0]; ign = st.load(a + 100, 4); cur = st.load(a + 8, 8)
+        if ign < H and any(l > 0 for l in header_len[ign:]): state(st, a, 4); return [(st, a)]          # header text is not a number: failbit
+        idx = max(ign - H, 0) * C + cur
+        if idx < R * C: st.store(args[1], 8, T[idx // C][idx % C]); st.store(a + 8, 8, cur + 1)
+        else: state(st, a, 6)                                                                            # end of file: eofbit | failbit
+        return [(st, a)]
+    def getline(it, args, st, depth):
+        a = args[0]; cur = st.load(a + 8, 8)
+        if cur < nlines:
+            ln = header_len[cur] if cur < H else (data_len[cur - H] if data_len else 3 * C); st.store(args[1] + 8, 8, ln); st.store(a + 8, 8, cur + 1)
+        else: state(st, a, 6)
+        return [(st, a)]
+    def clear(it, args, st, depth): st.store(args[0] + 32, 4, args[1]); return [(st, None)]
+    ret_this = lambda it, args, st, depth: [(st, args[0])]; nop = lambda it, args, st, depth: [(st, None)]
+    return {'@' + IFS + 'C1Ev': ctor, '@' + IFS + 'C1ERKNSt7__cxx1112basic_stringIcS1_SaIcEEESt13_Ios_Openmode': ctor, '@' + IFS + 'D1Ev': nop, '@' + IFS + 'D2Ev': nop,
+            '@' + FB + '4openEPKcSt13_Ios_Openmode': fb_open, '@' + FB + '5closeEv': ret_this, '@' + FB + 'D2Ev': nop, '@_ZNSt8ios_baseD2Ev': nop, '@_ZNKSt12__basic_fileIcE7is_openEv': lambda it, args, st, depth: [(st, 1)],
+            '@_ZNSi6ignoreEli': ignore, '@_ZNSi10_M_extractIdEERSiRT_': extract, '@_ZNSt9basic_iosIcSt11char_traitsIcEE5clearESt12_Ios_Iostate': clear, '@_ZNKSt5ctypeIcE13_M_widen_initEv': nop,
+            '@_ZSt7getlineIcSt11char_traitsIcESaIcEERSt13basic_istreamIT_T0_ES7_RNSt7__cxx1112basic_stringIS4_S5_T1_EES4_': getline}
+def cpath(st):
+    a = st.alloc(8)
+    for i, b in enumerate(b'f.txt\0'): st.store(a + i, 1, b)
+    return a
+def job_count_lines(n):
+    """Count_Lines on a file of n lines of arbitrary lengths (symbolic, zero included) returns n"""
+    res = []; L = [z3.Int('len%d' % i) for i in range(n)]; inter = file_model([], n, 1, [[0.0]] * n, data_len=L)
+    it = Interp(C19.G['m'], intercept=inter, limits=Limits(max_paths=600, feas_ms=1000)); st = it.new_state(); st.pc += [l >= 0 for l in L] + [l <= 10000 for l in L]
+    ps = it.execute('@verif_count_lines', [cpath(st)], st); mv = {'case': 'count', 'n': n, 'line_lengths': L}; nret = 0
+    for pi, p in enumerate(ps):
+        if p.end is not None:
+            res.append(prove('count-lines/n%d/returns[%d]' % (n, pi), p.st.pc, z3.BoolVal(False), 10000, mv, key='C20/import/count-lines', detail=str(p.end))); continue
+        nret += 1
+        if is_sym(p.ret): res.append(prove('count-lines/n%d/every-line-counted[%d]' % (n, pi), p.st.pc, toI(p.ret) == n, 10000, mv, key='C20/import/count-lines'))
+        else: res.append(ob('count-lines/n%d/every-line-counted[%d]' % (n, pi), 'discharged', key='C20/import/count-lines', detail='returns %d' % p.ret) if p.ret == n else prove('count-lines/n%d/every-line-counted[%d]' % (n, pi), p.st.pc, z3.BoolVal(False), 10000, mv, key='C20/import/count-lines', detail='returned %d for %d lines' % (p.ret, n)))
+    if not ps: res.append(ob('count-lines/n%d/reach' % n, 'broken', detail='no path'))
+    return res
+def job_import(header_len, R, C, with_dims):
+    """Import_Table / Import_List on a file with the given header lines (skipped by ignored_initial_lines = their number) and R x C symbolic numbers: shape R x C, entry = number x unit of its column (no units: x 1); list = all numbers x unit"""
+    res = []; H = len(header_len); T = [[z3.Real('t%d_%d' % (i, j)) for j in range(C)] for i in range(R)]; D = [z3.Real('unit%d' % j) for j in range(C)] if with_dims else []
+    tag = 'import/h%s/%dx%d/%s' % ('-'.join(map(str, header_len)) or '0', R, C, 'units' if with_dims else 'plain'); mv = {'case': 'table', 'header': list(header_len), 'R': R, 'C': C, 'T': [x for r in T for x in r], 'units': D}
+    it = Interp(C19.G['m'], intercept=file_model(list(header_len), R, C, T), limits=Limits(max_paths=600, feas_ms=1000)); st = it.new_state()
+    out = st.alloc(8 * (R * C + 4)); shp = st.alloc(8)
+    ps = it.execute('@verif_import_table', [cpath(st), len(D), st.put_doubles(D) if D else st.alloc(8), H, out, R * C + 4, shp], st); nret = 0
+    for pi, p in enumerate(ps):
+        if p.end is not None:
+            res.append(prove('%s/table-returns[%d]' % (tag, pi), p.st.pc, z3.BoolVal(False), 10000, mv, key='C20/import/table', detail=str(p.end))); continue
+        nret += 1; sh = (p.st.load(shp, 4), p.st.load(shp + 4, 4)); okshape = sh == (R, C)
+        res.append(ob('%s/table-shape[%d]' % (tag, pi), 'discharged' if okshape else 'candidate', key='C20/import/table', model=None if okshape else mv, detail='shape %s, file has %d x %d numbers' % (sh, R, C)))
+        if okshape:
+            for i in range(R):
+                for j in range(C):
+                    res.append(prove('%s/table-entry[%d,%d,%d]' % (tag, pi, i, j), p.st.pc, toR(p.st.load(out + 8 * (i * C + j), 8, True)) == T[i][j] * (D[j] if D else 1), 10000, mv, key='C20/import/table', sample=(i == 0 and j == 0 and with_dims)))
+    if not ps: res.append(ob(tag + '/table-reach', 'broken', detail='no path'))
+    U = z3.Real('unit'); it = Interp(C19.G['m'], intercept=file_model(list(header_len), R, C, T), limits=Limits(max_paths=600, feas_ms=1000)); st = it.new_state(); out = st.alloc(8 * (R * C + 4))
+    ps = it.execute('@verif_import_list', [cpath(st), U, H, out, R * C + 4], st); mvl = dict(mv, case='list', unit=U)
+    for pi, p in enumerate(ps):
+        if p.end is not None:
+            res.append(prove('%s/list-returns[%d]' % (tag, pi), p.st.pc, z3.BoolVal(False), 10000, mvl, key='C20/import/list', detail=str(p.end))); continue
+        okn = (not is_sym(p.ret)) and p.ret == R * C
+        res.append(ob('%s/list-length[%d]' % (tag, pi), 'discharged' if okn else 'candidate', key='C20/import/list', model=None if okn else mvl, detail='%s values, file has %d' % (p.ret, R * C)))
+        if okn:
+            for k in range(R * C): res.append(prove('%s/list-entry[%d,%d]' % (tag, pi, k), p.st.pc, toR(p.st.load(out + 8 * k, 8, True)) == T[k // C][k % C] * U, 10000, mvl, key='C20/import/list'))
+    return res
+
 def jobs(ctx):
     C19.module(ctx); b = BOUNDS[ctx.tier]; info = {}
     for opt in b['opt_levels']:
@@ -94,6 +180,10 @@ def jobs(ctx):
     J = [(job_units, (opt, info)) for opt in b['opt_levels']]
     for r in range(1, b['sizes'] + 1):
         for c in range(1, b['sizes'] + 1): J.append((job_in_units, (r, c)))
+    for n in range(0, b['sizes'] + 1): J.append((job_count_lines, (n,)))
+    for hl in ((), (12,), (12, 7), (12, 0), (0,)):
+        for (R, C) in ((1, 1), (2, 3), (3, 2)) if b['sizes'] <= 3 else ((1, 1), (2, 3), (3, 2), (4, 4)):
+            for wd in (False, True): J.append((job_import, (hl, R, C, wd)))
     return J
 
 def native_units(ctx): return ctx.native(C19.NATIVE_SRCS, 'NU.cpp')
@@ -112,6 +202,33 @@ def validate(ctx):
 def fl(q): return q2f(q) if isinstance(q, list) else float(q)
 def replay(ctx, o):
     m = o['model'] or {}; key = o['key']
+    if key.startswith('C20/import'):
+        # a real file with the lines of the model, read by the native Count_Lines / Import_Table / Import_List
+        import tempfile, os
+        so = C19.native(ctx); d = tempfile.mkdtemp(prefix='c20.', dir=os.path.join(os.path.dirname(os.path.dirname(os.path.abspath(__file__))), '.work')); path = os.path.join(d, 'f.txt')
+        def fnum(q, default):
+            try: return q2f(q)
+            except Exception: return default
+        try:
+            if m.get('case') == 'count':
+                L = [max(0, int(fnum(q, 1))) for q in m['line_lengths']]
+                open(path, 'w').write(''.join('x' * l + '\n' for l in L))
+                r = nat.call(so, 'verif_count_lines', [('str', path)], restype='uint')
+                return (r['status'] != 'ok' or r['ret'] != len(L)), 'native Count_Lines on a file with %d lines of lengths %s: %s' % (len(L), L, r.get('ret', r['status']))
+            R, C = m['R'], m['C']; T = [[fnum(m['T'][i * C + j], 1.5 + i + 0.25 * j) for j in range(C)] for i in range(R)]; U = [fnum(q, 2.0) for q in m.get('units', [])]
+            open(path, 'w').write(''.join('#' * l + '\n' for l in m['header']) + ''.join('\t'.join(repr(x) for x in row) + '\n' for row in T))
+            if m['case'] == 'table':
+                r = nat.call(so, 'verif_import_table', [('str', path), ('u32', len(U)), ('dbl[]', U or [0.0]), ('u32', len(m['header'])), ('dbl[]', [0.0] * (R * C + 4)), ('u64', R * C + 4), ('u32[]', [0, 0])], restype='long')
+                if r['status'] != 'ok': return True, 'native Import_Table on %d header lines %s + %d x %d numbers: %s' % (len(m['header']), m['header'], R, C, r['status'])
+                sh = tuple(r['arrays'][2]); vals = r['arrays'][1][:R * C]; want = [T[i][j] * (U[j] if U else 1.0) for i in range(R) for j in range(C)]
+                bad = sh != (R, C) or any(abs(a - b) > 1e-9 * max(1.0, abs(b)) for a, b in zip(vals, want))
+                return bad, 'native Import_Table on a file with header line lengths %s and %d x %d numbers: shape %s, values %s (expected %s)' % (m['header'], R, C, sh, vals[:6], want[:6])
+            u = fnum(m.get('unit'), 2.0); r = nat.call(so, 'verif_import_list', [('str', path), u, ('u32', len(m['header'])), ('dbl[]', [0.0] * (R * C + 4)), ('u64', R * C + 4)], restype='long')
+            if r['status'] != 'ok': return True, 'native Import_List: %s' % r['status']
+            want = [T[i][j] * u for i in range(R) for j in range(C)]; vals = r['arrays'][1][:R * C]
+            return (r['ret'] != R * C or any(abs(a - b) > 1e-9 * max(1.0, abs(b)) for a, b in zip(vals, want))), 'native Import_List: %d values %s (expected %d: %s)' % (r['ret'], vals[:6], R * C, want[:6])
+        finally:
+            import shutil; shutil.rmtree(d, ignore_errors=True)
     if key.startswith('C20/units'):
         so = native_units(ctx); r = nat.call(so, 'verif_units', [('dbl[]', [0.0] * len(UNITS))], restype='void'); u = dict(zip(UNITS, r['arrays'][0])); bad = []
         for n, f in DEFS.items():
